@@ -96,6 +96,13 @@ struct ScriptedReader {
 impl Read for ScriptedReader {
     fn read(&mut self, buf: &mut [u8]) -> std::io::Result<usize> {
         *self.reads.borrow_mut() += 1;
+        if self.chunks.front().map(|c| c.as_slice() == [0xF8u8]).unwrap_or(false) {
+            // a scripted TIME-OUT (the chunk 0xF8, never part of UTF-8 text): the read times out once, as the in-process
+            // pipe of the GUI does while nothing is typed; a debugger that has a command ready sends it now
+            self.chunks.pop_front();
+            crate::memory::verif::before_blocking_receive();
+            return Err(std::io::Error::from(std::io::ErrorKind::TimedOut));
+        }
         if let Some(mut chunk) = self.chunks.pop_front() {
             let n = chunk.len().min(buf.len());
             buf[0 .. n].copy_from_slice(&chunk[0 .. n]);
